@@ -6,7 +6,7 @@
    the model is unique and [cden] computes it; [vden] is the TRIPOLI-4 reading of a
    volume table. *)
 From Coq Require Import List ZArith NArith Bool Reals Permutation Lia.
-From T4V Require Import Base.Scalar C13.Model C13.ModelTr C13.Spec C13.Proofs C13.ProofsDedup C13.ProofsFill C13.ProofsVol C13.ProofsTr.
+From T4V Require Import Base.Scalar C13.Model C13.ModelTr C13.Spec C13.Proofs C13.ProofsDedup C13.ProofsFill C13.ProofsVol C13.ProofsTr C13.ProofsTr2.
 Import ListNotations.
 Open Scope Z_scope.
 
@@ -311,6 +311,37 @@ Theorem C13_fill_geometry_den_tr : forall (Tr P : Type) (tr_eqb : Tr -> Tr -> bo
       Forall2 (fun k' e => forall p, D k' p = D key p && D e (fold_right act p ts)) news elts.
 Proof. intros Tr P tr_eqb act H. exact (make_cells_tr_den tr_eqb act H). Qed.
 Print Assumptions C13_fill_geometry_den_tr.
+
+(* the whole recursion of pot_fill with transformations against [spec], a
+   flag-independent list of (universe, provenance, material, denotation) items:
+   every run returns keys that realise the items one by one ([matches]: the
+   record of the cell and, in every semantics of the final state, its denotation
+   at every point).  dic0 = the table as parsed (no CellRef), [based] = its cells
+   are still in the state *)
+Theorem C13_pot_fill_tr_spec : forall (Tr P : Type) (tr_eqb : Tr -> Tr -> bool) (act : Tr -> P -> P),
+  (forall a b, tr_eqb a b = true -> forall p, act a p = act b p) ->
+  forall fd fg dic0 tinfo, norefs dic0 ->
+  forall fuel key st ks st', wf act st -> based dic0 st -> lookup key dic0 <> None ->
+  pot_fill_tr tr_eqb fuel fd fg dic0 tinfo key st = Ok (ks, st') ->
+  wf act st' /\ text st st' /\
+  exists its, spec act fuel dic0 tinfo key = Some its /\ Forall2 (matches act st') ks its.
+Proof. intros Tr P tr_eqb act H. exact (pot_fill_tr_spec tr_eqb act H). Qed.
+Print Assumptions C13_pot_fill_tr_spec.
+
+(* two runs under different inline flags (different caches, different numbers
+   of intermediate cells and surfaces, hence different keys): the returned key
+   lists correspond position by position - a key renaming that preserves
+   universe, provenance, material and denotation ([same_cell]) *)
+Theorem C13_fill_tr_two_runs : forall (Tr P : Type) (tr_eqb : Tr -> Tr -> bool) (act : Tr -> P -> P),
+  (forall a b, tr_eqb a b = true -> forall p, act a p = act b p) ->
+  forall dic0 tinfo fuel key fd1 fg1 fd2 fg2 sa sb ks1 sa' ks2 sb',
+  norefs dic0 -> lookup key dic0 <> None ->
+  wf act sa -> based dic0 sa -> wf act sb -> based dic0 sb ->
+  pot_fill_tr tr_eqb fuel fd1 fg1 dic0 tinfo key sa = Ok (ks1, sa') ->
+  pot_fill_tr tr_eqb fuel fd2 fg2 dic0 tinfo key sb = Ok (ks2, sb') ->
+  Forall2 (same_cell act sa' sb') ks1 ks2.
+Proof. intros Tr P tr_eqb act H. exact (pot_fill_tr_two_runs tr_eqb act H). Qed.
+Print Assumptions C13_fill_tr_two_runs.
 
 (* the FILL loop under two pairs of inline flags runs in lock-step: same outcome
    (same exception or both succeed), same counter, same keys / universes / FILL
